@@ -268,6 +268,27 @@ let () =
       List.iter (fun t -> Printf.printf "L %s tok %s %s\n" tag (kind_name t.t_kind) (hex_of_bytes t.t_value)) ts;
       Printf.printf "L %s tail %s\n" tag (match tl with Closed -> "closed" | ErrorForEver -> "error");
       loop ()
+    | Some "Y" ->
+      (* Y tag hex : YParser.parse_text on the bytes; prints the AST *)
+      let tag = (match next () with Some s -> s | None -> failwith "tag") in
+      let src = (match next () with Some s -> bytes_of_hex s | None -> failwith "eof") in
+      (match parse_text src with
+       | PNoDeclare -> Printf.printf "Y %s result nodeclare\n" tag
+       | PNoSection -> Printf.printf "Y %s result nosection\n" tag
+       | PBadRules -> Printf.printf "Y %s result badrules\n" tag
+       | PFuelOut -> Printf.printf "Y %s result FUEL\n" tag
+       | PAst a ->
+         let d = a.a_decl in
+         Printf.printf "Y %s result ast\n" tag;
+         Printf.printf "Y %s head %s %s %s %s\n" tag (hex_of_bytes d.d_code) (hex_of_bytes d.d_union) (hex_of_bytes d.d_start) (hex_of_bytes a.a_rest);
+         List.iter (fun line -> Printf.printf "Y %s tokline %s\n" tag (String.concat " " (List.map (fun i ->
+           Printf.sprintf "%s %d %d %s %s" (hex_of_bytes i.i_name) (match i.i_typ with TermId -> 1 | NontermId -> 2) (int_of_z i.i_value) (hex_of_bytes i.i_tag) (hex_of_bytes i.i_alias)) line))) d.d_tokens;
+         List.iter (fun line -> Printf.printf "Y %s precline %s\n" tag (String.concat " " (List.map (fun p ->
+           Printf.sprintf "%d %s" (match p.pd_assoc with ALeft -> 1 | ARight -> 2 | ANon -> 3) (hex_of_bytes p.pd_name)) line))) d.d_precs;
+         List.iter (fun (tg, nm) -> Printf.printf "Y %s type %s %s\n" tag (hex_of_bytes tg) (hex_of_bytes nm)) d.d_types;
+         List.iter (fun r -> Printf.printf "Y %s rule %s %s %s\n" tag (hex_of_bytes r.r_lhs) (hex_of_bytes r.r_prec)
+           (String.concat " " (List.map (function RSym n -> "1 " ^ hex_of_bytes n | RAct c -> "2 " ^ hex_of_bytes c) r.r_rhs))) a.a_rules);
+      loop ()
     | Some "M" ->
       (* M tag rows cols cells... : pack a matrix, print unpack(pack) and the lookups *)
       let tag = (match next () with Some s -> s | None -> failwith "tag") in
